@@ -1,6 +1,7 @@
 import XtModel.Model.Wire
 import XtModel.Model.Encoding
 import XtModel.Model.TomlOrder
+import XtModel.Model.Json
 
 /-!
 Native driver: one case per input line, one answer per output line
@@ -101,10 +102,63 @@ def tomlorder (fs : List String) : String :=
     | _ => "bad-case"
   | _ => "bad-case"
 
+/-! ### json / jsonstr / jsonnum -/
+open Xt.Json in
+def errName : Err → String
+  | .eofList => "eofList" | .eofObject => "eofObject" | .eofString => "eofString"
+  | .eofValue => "eofValue" | .expectedColon => "expectedColon"
+  | .expectedListCommaOrEnd => "expectedListCommaOrEnd"
+  | .expectedObjectCommaOrEnd => "expectedObjectCommaOrEnd"
+  | .expectedIdent => "expectedIdent" | .expectedValue => "expectedValue"
+  | .invalidEscape => "invalidEscape" | .invalidNumber => "invalidNumber"
+  | .numberOutOfRange => "numberOutOfRange" | .invalidUnicode => "invalidUnicode"
+  | .controlChar => "controlChar" | .keyMustBeString => "keyMustBeString"
+  | .loneSurrogate => "loneSurrogate" | .trailingComma => "trailingComma"
+  | .trailingChars => "trailingChars" | .unexpectedEndOfHexEscape => "unexpectedEndOfHexEscape"
+  | .recursionLimit => "recursionLimit" | .utf8 => "utf8"
+
+open Xt.Json in
+def verdictName : Verdict → String
+  | .ok => "ok"
+  | .err e => errName e
+
+open Xt.Json in
+def json (fs : List String) : String :=
+  match fs with
+  | ["json", hex] =>
+    match parseHex hex with
+    | some bs =>
+      let (sd, sv) := sliceLoop bs
+      let (rd, rv) := readerLoop bs
+      s!"slice:{verdictName sv}:{sd.length} reader:{verdictName rv}:{rd.length} out:{toHex (writeDocs markerFloat rd)}"
+    | none => "bad-case"
+  | ["jsonstr", hex] =>
+    match parseHex hex with
+    | some (0x22 :: bs) =>
+      match parseStr bs with
+      | .error e => "err:" ++ errName e
+      | .ok (cps, rest) =>
+        if (skipWs rest).isEmpty then "ok:" ++ toHex (cps.flatMap utf8) else "err:trailingChars"
+    | _ => "bad-case"
+  | ["jsonnum", hex] =>
+    match parseHex hex with
+    | some bs =>
+      match parseValue depthLimit (0x5B :: bs ++ [0x5D]) with
+      | .error e => "err:" ++ errName e
+      | .ok (v, rest) =>
+        if !(skipWs rest).isEmpty then "err:trailingChars" else
+        match v with
+        | .arr [.int i] => if i < 0 then s!"i64:{i}" else s!"u64:{i}"
+        | .arr [.float _] => "float"
+        | _ => "other"
+    | none => "bad-case"
+  | _ => "bad-case"
+
 def answer (fs : List String) : String :=
   match fs with
   | "encdetect" :: _ | "reencode" :: _ | "reencstream" :: _ => encoding fs
   | "tomlorder" :: _ => tomlorder fs
+  | "json" :: _ | "jsonstr" :: _ | "jsonnum" :: _ => json fs
   | _ => "bad-engine"
 
 partial def loop (h : IO.FS.Stream) (out : IO.FS.Stream) : IO Unit := do
